@@ -41,8 +41,30 @@ def fill(chk, NA):
         "reformat_files / FileResolver boundary; real find_config_file on a duck-typed path with z3 existence bits.",
         "Integer values unbounded in merge; e2e uses fixed distinct constants; presence bits are enumerated by solver forks. Directories above the temp tree hold no config file.",
         "symbolic values + solver-enumerated presence bits through the real merge/search code", "DESIGN.md §3 C16")
+    chk("C04", "model_checking",
+        "Skeletons whose atomic constructs carry quotes and dots (tags, comments, code spans/blocks, HTML attributes, URLs, destinations, titles, labels, exotic line separators in code) in every container, "
+        "ALL typography options and cleanups on, both modes, lengths and width symbolic; on every feasible path the literal-span sequence extracted from the output equals that of the input.",
+        A12 + " Spans are delimited by Marko (plus a regex for template tags in text).", "dynamic symbolic execution of reformat_text + literal-span extractor differential", "DESIGN.md §3 C04")
+    chk("C06", "model_checking",
+        "Paragraphs mixing plain tokens with 1-3 atomic constructs (their own lengths symbolic too) in every container and mode, and tag-only-line skeletons around prose/list/table; per path a reference word "
+        "reader must accept the output: constructs intact on one line, separators as in the source, tag lines alone and unindented, enclosed blocks blank-line separated.",
+        A12 + " Overlap semantics of ATOMIC_CONSTRUCT_PATTERN on arbitrary text (backreference) is not encoded; covered through the construct vocabulary only.", "dynamic symbolic execution of reformat_text + reference word reader", "DESIGN.md §3 C06")
+    chk("C07", "model_checking",
+        "12 concrete frontmatter blocks (quotes, dots, long lines, exotic separators, CRLF, padded delimiters) x body skeletons x option sets on joint paths: format(fm+body) == fm' + format(body); "
+        "unclosed opening returned unchanged and stable over three runs. Body lengths and width symbolic.",
+        A12 + " Frontmatter content itself is concrete (enumerated); precondition: the body does not start with '---'.", "dynamic symbolic execution of two runs per path (with / without frontmatter)", "DESIGN.md §3 C07")
+    chk("C08", "model_checking",
+        "Document differential smartquotes on vs off on joint paths (other options enumerated): equal length and line breaks, differences only at ' or \" positions outside literal spans, literal spans equal.",
+        A12 + " Literal-span positions in the output text are located by a regex scanner.", "dynamic symbolic execution of two runs per path + character-level differential", "DESIGN.md §3 C08")
+    chk("C09", "model_checking",
+        "Document differential ellipses on vs off on joint paths: text equal after mapping the ellipsis back and ignoring adjacent spaces, same parsed structure, literal spans equal, applying again changes nothing.",
+        A12, "dynamic symbolic execution of two or three runs per path + normalising differential", "DESIGN.md §3 C09")
+    chk("C12", "other",
+        "Partial: on every feasible path (all lengths, every integer width) of every skeleton family plus degenerate inputs the pipeline returns a str without raising, ends in a newline, adds no NUL/placeholder "
+        "and no trailing space on blank code lines. Hangs, running time and arbitrary Unicode are not SMT objects and are NOT claimed.",
+        A12 + " Only the well-formedness half of the property is decided; the timing half is declined (see DESIGN.md).", "dynamic symbolic execution; exceptions on feasible paths are replayed and reported", "DESIGN.md §3 C12")
     pending = "check not built yet in this revision (work in progress; see DESIGN.md §3 for the plan)"
-    for p in ["C04","C06","C07","C08","C09","C12","C17","C18"]:
+    for p in ["C17","C18"]:
         NA[p] = pending
     NA["C13"] = ("quantifies over thread interleavings and process histories of CPython interpreter state; no available solver engine models a scheduler or a symbolic Python heap, "
                  "and a bounded history with symbolic word lengths would be a concrete test wearing a solver (DESIGN.md §3 C13)")
